@@ -1,6 +1,12 @@
 package main
 
 import (
+	"context"
+	"net"
+	"net/http"
+
+	xmpp "gosrc.io/xmpp"
+	"nhooyr.io/websocket"
 	"bufio"
 	"bytes"
 	"encoding/xml"
@@ -363,6 +369,105 @@ func c02bounded(data []byte, mode string, limit int, bound time.Duration) c02out
 	}
 }
 
+// c02viaWS serves `pieces` as WebSocket text messages (burst) and reads them back through the library's
+// WebsocketTransport (reader goroutine, queue, Read, bufio, decoder) with InitStream / NextPacket.
+func c02viaWS(pieces []string, limit int) string {
+	for _, p := range pieces {
+		if len(p) > 30000 {
+			pieces = nil // larger than the transport's message limit: not a case for this path
+		}
+	}
+	if pieces == nil {
+		return "ws-skipped"
+	}
+	srvDone := make(chan struct{})
+	mux := http.NewServeMux()
+	mux.HandleFunc("/", func(w http.ResponseWriter, r *http.Request) {
+		defer close(srvDone)
+		conn, err := websocket.Accept(w, r, &websocket.AcceptOptions{Subprotocols: []string{"xmpp"}})
+		if err != nil {
+			return
+		}
+		ctx, cancel := context.WithTimeout(context.Background(), 10*time.Second)
+		defer cancel()
+		if _, _, err := conn.Read(ctx); err != nil { // the client's <open/>
+			return
+		}
+		conn.Write(ctx, websocket.MessageText, []byte(`<open xmlns="urn:ietf:params:xml:ns:xmpp-framing" id="ws1" from="localhost" version="1.0"/>`))
+		for _, p := range pieces {
+			if p == "" {
+				continue
+			}
+			if conn.Write(ctx, websocket.MessageText, []byte(p)) != nil {
+				return
+			}
+		}
+		// over WebSocket the end of the connection is noticed by the keepalive only; the harness has none, so the
+		// stream ends with an element of an unknown namespace: reading it is the error that ends a run over a byte
+		// reader as well (there: end of input)
+		conn.Write(ctx, websocket.MessageText, []byte("<end-of-run xmlns='urn:verif:no-such-namespace'/>"))
+		// keep reading (control frames, the client's <close/>) until the client closes, or the time is up
+		for {
+			if _, _, err := conn.Read(ctx); err != nil {
+				return
+			}
+		}
+	})
+	ln, err := net.Listen("tcp", "127.0.0.1:0")
+	if err != nil {
+		return "listen-failed"
+	}
+	srv := &http.Server{Handler: mux}
+	go srv.Serve(ln)
+	defer srv.Close()
+	t := xmpp.NewClientTransport(xmpp.TransportConfiguration{Address: "ws://" + ln.Addr().String() + "/", Domain: "localhost", ConnectTimeout: 5})
+	ch := make(chan string, 1)
+	go func() {
+		defer func() {
+			if r := recover(); r != nil {
+				ch <- "panic"
+			}
+		}()
+		if _, err := t.Connect(); err != nil {
+			ch <- "ws-connect-failed"
+			return
+		}
+		time.Sleep(40 * time.Millisecond) // the burst is in the transport's queue by now
+		d := t.GetDecoder()
+		if _, err := stanza.InitStream(d); err != nil {
+			ch <- "initerr"
+			return
+		}
+		var obs []string
+		for i := 0; ; i++ {
+			if i == limit {
+				obs = append(obs, "limit")
+				break
+			}
+			p, err := stanza.NextPacket(d)
+			if err != nil {
+				obs = append(obs, "err")
+				break
+			}
+			k, a, sum := c02kind(p)
+			obs = append(obs, strings.Join([]string{"pkt", k, hx(string(a.Type)), hx(a.Id), hx(a.From), hx(a.To), hx(sum)}, " "))
+		}
+		ch <- strings.Join(obs, ";")
+	}()
+	var out string
+	select {
+	case out = <-ch:
+	case <-time.After(10 * time.Second):
+		out = "timeout"
+	}
+	t.Close()
+	select {
+	case <-srvDone:
+	case <-time.After(time.Second):
+	}
+	return out
+}
+
 func c02header(variant string) (string, string) {
 	def := c02NSClient
 	if variant == "component" {
@@ -402,6 +507,19 @@ func (c02) Exec(c Case) []string {
 			data := []byte(sb.String())
 			if bad := c02tokenCheck(data, items, def); bad != "" {
 				obs = append(obs, "tokenizer-view-mismatch "+bad)
+				continue
+			}
+			if op[1] == "ws" {
+				// the same bytes through the REAL WebsocketTransport: the stream header and every top-level element as
+				// one WebSocket message each, sent in one burst (the reader goroutine queues them faster than the
+				// decoder takes them)
+				pieces := []string{hdr}
+				for _, t := range items {
+					var ib strings.Builder
+					t.render(&ib, def)
+					pieces = append(pieces, ib.String())
+				}
+				obs = append(obs, c02viaWS(pieces, len(items)+8))
 				continue
 			}
 			o := c02bounded(data, op[1], len(items)+8, 10*time.Second)
@@ -924,7 +1042,7 @@ func (c02) Generate(rng *rand.Rand, tier string, st *Stats) []Case {
 		{c02E(cm, c02E(c02nm{c02NSClient, "body"}, c02T("one")), c02E(c02nm{c02NSClient, "body"}, c02T("t"), c02E(ux, c02T("no")), c02T("wo"))).with("id", "m6"), after("client")},
 	}
 	for _, items := range corpus {
-		addCase("corpus", "client", items, "whole", "byte1", "rand:7")
+		addCase("corpus", "client", items, "whole", "byte1", "rand:7", "ws")
 	}
 	st.Add("corpus", len(corpus))
 
@@ -1021,7 +1139,12 @@ func (c02) Generate(rng *rand.Rand, tier string, st *Stats) []Case {
 			items = append(items, &c02tree{Kind: 'X'})
 			st.Inc("top_streamclose")
 		}
-		addCase("rnd", variant, items, std()...)
+		modes := std()
+		if len(cases)%12 == 0 && len(items) >= 2 {
+			modes = append(modes, "ws") // every twelfth forest also through the WebSocket transport, one message per element
+			st.Inc("run_ws")
+		}
+		addCase("rnd", variant, items, modes...)
 	}
 
 	// 5. values a typed Go field rejects (outside the theorems' region; the as-is model predicts the error)
